@@ -119,6 +119,7 @@ static enum DeviceStatusCode mc_stop(struct Camera* c)
     pthread_mutex_lock(&m->mu);
     m->stopping = 1; pthread_cond_broadcast(&m->cv);
     pthread_mutex_unlock(&m->mu);
+    if (rtm.cam[m->dev].cfg.stop_us > 0) { struct timespec ts = { 0, 1000L * rtm.cam[m->dev].cfg.stop_us }; nanosleep(&ts, 0); } // a camera that takes its time to stop
     ev(0, m->dev, RTM_STOP, m->instance, c->state, Device_Ok, 0);
     return Device_Ok;
 }
@@ -220,6 +221,7 @@ static enum DeviceState ms_stop(struct Storage* s)
 {
     struct msto* m = STO(s);
     atomic_fetch_add(&rtm.sto[m->dev].stops, 1);
+    if (rtm.sto[m->dev].cfg.stop_us > 0) { struct timespec ts = { 0, 1000L * rtm.sto[m->dev].cfg.stop_us }; nanosleep(&ts, 0); }
     ev(1, m->dev, RTM_STOP, m->instance, s->state, DeviceState_Armed, 0);
     return DeviceState_Armed;
 }
